@@ -129,6 +129,7 @@ type claModel struct {
 }
 
 type claSim struct {
+	trafficInTick bool
 	c      *simk.Case
 	res    *simk.Result
 	lg     *simk.Log
@@ -313,6 +314,9 @@ func (h *claSim) exec(op simk.Op) {
 			md.attempts = 1 // the restart is a new registration with a new budget
 			h.noteStart(a, md, st[len(st)-1])
 		}
+	case "tick_traffic":
+		h.trafficInTick = true
+		h.tick()
 	case "tick":
 		n := int(op.N)
 		if n <= 0 {
@@ -469,7 +473,30 @@ func (h *claSim) tick() {
 		return
 	}
 	before := h.counts()
-	time.Sleep(10*time.Second + time.Millisecond)
+	if h.trafficInTick {
+		// status traffic inside the retry interval must not postpone the retry: an active adapter reports
+		// something harmless (its peer appeared) six seconds into the interval
+		h.trafficInTick = false
+		var src *claModel
+		for a := 0; a < len(h.specs); a++ {
+			if md := h.model[a]; md.state == "active" && md.inst != nil {
+				src = md
+				break
+			}
+		}
+		time.Sleep(6 * time.Second)
+		h.settle()
+		if src != nil {
+			inst, conv := src.inst, src.conv
+			h.res.Fault("status_traffic_inside_retry_interval")
+			h.inject(func() {
+				inst.ch <- NewConvergencePeerAppeared(conv, bpv7.MustNewEndpointID("dtn://seen/"))
+			})
+		}
+		time.Sleep(4*time.Second + time.Millisecond)
+	} else {
+		time.Sleep(10*time.Second + time.Millisecond)
+	}
 	h.settle()
 	for a := 0; a < len(h.specs); a++ {
 		md := h.model[a]
@@ -653,7 +680,11 @@ func genClaCase(seed uint64, tier, focus, variant string) *simk.Case {
 		case x < 62:
 			c.Ops = append(c.Ops, simk.Op{K: "disappear", P: a})
 		case x < 97:
-			c.Ops = append(c.Ops, simk.Op{K: "tick", N: int64(r.Pick(1, 1, 1, 2, 5, 16))})
+			if rt := simk.NewRand(seed, fmt.Sprintf("traffic%d", len(c.Ops))); rt.Bool(0.3) {
+				c.Ops = append(c.Ops, simk.Op{K: "tick_traffic"})
+			} else {
+				c.Ops = append(c.Ops, simk.Op{K: "tick", N: int64(r.Pick(1, 1, 1, 2, 5, 16))})
+			}
 		default:
 			c.Ops = append(c.Ops, simk.Op{K: "close"})
 		}
